@@ -1,0 +1,7 @@
+//go:build !verif
+
+package res
+
+func verifNote(point string, wid string, n int) {}
+
+func verifGate(point string) {}
